@@ -146,6 +146,13 @@ def oracle(case):
     if case.get("comment_char"):
         kw["ignore_data_comments"] = case["comment_char"]  # the file's data comments use the character the caller names
         out.cls("comment-char-" + case["comment_char"])
+    if case.get("dtypes"):
+        # one dtype per DECLARED curve, as list or as dict by name: the caller states types, not the layout of the file
+        if case["dtypes"] == "list":
+            kw["dtypes"] = [float] * case["d"]
+        else:
+            kw["dtypes"] = {}
+        out.cls("dtypes-" + case["dtypes"])
     if case.get("null_policy"):
         kw["null_policy"] = case["null_policy"]  # no cell of these files is a null marker of any policy
         out.cls("null_policy-" + case["null_policy"])
@@ -200,6 +207,8 @@ def grid(tier):
                                 yield dict(d=d, c=c, r=r, engine=engine, sign=sign, names="numeric")
                             if r <= 3:
                                 yield dict(d=d, c=c, r=r, engine=engine, sign=sign, index="text")
+                    for how in ("list", "dict"):
+                        yield dict(d=d, c=c, r=r, engine=engine, sign="pos", dtypes=how)
                     for policy in ("all", "numbers-only"):
                         yield dict(d=d, c=c, r=r, engine=engine, sign="pos", null_policy=policy, noise=[[r // 2, "w"]])
                     for ch in ("%", ";"):
@@ -213,6 +222,9 @@ def grid(tier):
                         yield dict(d=d, c=c, r=r, engine=engine, sign="pos", quoted=True)
                     if c >= 2 and r >= 2:
                         yield dict(d=d, c=c, r=r, engine=engine, sign="pos", dates=(d + r))
+                        # ... and a blank line among them: a blank line is no data line, it says nothing about hyphens
+                        for pos in (0, r // 2, r):
+                            yield dict(d=d, c=c, r=r, engine=engine, sign="pos", dates=(d + r), noise=[[pos, "b"]])
                     if c >= 2:
                         yield dict(d=d, c=c, r=r, engine=engine, sign="mixed", runon=True)
                         yield dict(d=d, c=c, r=r, engine=engine, sign="neg", runon=True)
